@@ -11,6 +11,10 @@ open Go Vuego Vuego.Merge
 def goodCfg : MergeCfg :=
   { loadConfig := [.theme, .dataYml], fill := [.initialData, .passed, .frontMatter], render := [.callerData, .fileFrontMatter] }
 
+/-- the file render of a template goes through Vue.Render, where the file's own front-matter is laid over the template's variables
+    (`renderEnv` models exactly that call; a render path that bypasses it loses the top precedence level for values assigned after Load) -/
+theorem source_template_render_via_vue_render : Generated.templateRendersViaVueRender = true := by decide
+
 /-- the source merges in exactly these orders -/
 theorem source_merge_orders : Generated.mergeCfg = goodCfg := by decide
 
